@@ -954,7 +954,7 @@ def observe_disc(case: dict) -> dict:
             try:
                 if slot.startswith("v"):
                     rec[slot] = canon_value(disc.execute({"c": v})[out_name])
-                elif kind != "max":  # the discipline has no Jacobian for MAX (documented as non differentiable)
+                else:
                     rec[slot] = canon_jac(disc.linearize({"c": v}, compute_all_jacobians=True)[out_name]["c"])
             except Exception as e:  # noqa: BLE001
                 rec[slot + "_exc"] = common.exc_class(e) + ": " + repr(e)[:160]
@@ -1096,7 +1096,7 @@ def run(ctx) -> Result:
         "sum-of-squares aggregations with a scale are taken as sum(scale * g^2) (the code's documented parameter); KS/IKS/max aggregate scale * g",
     ]
     rng = ctx.rng
-    n_cases = 12000 if ctx.thorough else 700
+    n_cases = 12000 if ctx.thorough else 2000
     n_smooth = 2000 if ctx.thorough else 150
     corpus = load_corpus()
     check_cases(res, corpus, True)
